@@ -1,4 +1,5 @@
 import RoutinatorModel.Model.Paths
+import RoutinatorModel.Model.Dubious
 import RoutinatorModel.Drv.Util
 import RoutinatorModel.Drv.Sha256
 /-! Driver components of group "collect": `c30` (paths). -/
@@ -88,6 +89,52 @@ def runC30 (arg : String) : String :=
       | some (names, _) => joinWith " " (names.map fun x => "=" ++ ofStr x)
       | none => "no-free-name"
     | none => "bad-op"
+  | _ => "bad-op"
+
+/-! ## c31 -/
+open RoutinatorModel.Dubious in
+def parseReq (w : String) : Option Req :=
+  if w.startsWith "m:" then
+    (parseRsync (toStr (w.drop 2).toString)).map fun u => Req.module u.auth u.module
+  else if w.startsWith "r:" then
+    (parseHttps (toStr (w.drop 2).toString)).map fun n => Req.repository n.auth n.path
+  else none
+
+open RoutinatorModel.Dubious in
+/-- Runs the requests on one `Run`; every update attempt fails without a local copy (the
+harness's proxy refuses), so `net` is constantly `unavailable`. -/
+def runC31Reqs (filter : Bool) (reqs : List Req) : String :=
+  let net : Str × Str → Load := fun _ => .unavailable
+  let rec go (r : Run) : List Req → List String
+    | [] => []
+    | q :: qs =>
+      match q with
+      | .module a m =>
+        let (f, r') := loadModule filter true r a m
+        ("m" ++ toString f.length) :: go r' qs
+      | .repository a p =>
+        let (f, res, r') := loadRepository filter net r a p
+        let tag := match res with
+          | .unavailable => "U" | .stale => "S" | .current => "C" | .updated => "D"
+        ("r" ++ toString f.length ++ tag) :: go r' qs
+  joinWith " " (go Run.empty reqs)
+
+open RoutinatorModel.Dubious in
+def runC31 (arg : String) : String :=
+  match words arg with
+  | ["classify", "rsync", u] =>
+    match parseRsync (toStr u) with
+    | some u => "dubious=" ++ showBool (hasDubiousAuthority u.auth)
+    | none => "bad-op"
+  | ["classify", "https", n] =>
+    match parseHttps (toStr n) with
+    | some n => "dubious=" ++ showBool (hasDubiousAuthority n.auth)
+    | none => "bad-op"
+  | "run" :: filter :: reqs =>
+    match filter, reqs.mapM parseReq with
+    | "1", some reqs => runC31Reqs true reqs
+    | "0", some reqs => runC31Reqs false reqs
+    | _, _ => "bad-op"
   | _ => "bad-op"
 
 end RoutinatorModel.Drv
